@@ -21,6 +21,8 @@ int        g_upd_n;       /* number of HTPupdate calls */
 int32      g_cap;         /* capacity in bytes of the caller's data buffer */
 int        g_hlconvert_n; /* HLconvert calls */
 int        g_special_n;   /* calls through the special function table */
+atom_t     g_ddB;         /* a second DD id and the tag/ref of the two DDs */
+uint16     g_tagA, g_refA, g_tagB, g_refB;
 static char g_dummy_stream[8];
 
 /* trusted stubs for callees outside hfile.c */
@@ -48,6 +50,11 @@ HTPinquire(atom_t ddid, uint16 *ptag, uint16 *pref, int32 *poff, int32 *plen)
         *poff = g_dd_off;
     if (plen != NULL)
         *plen = g_dd_len;
+    /* tag/ref of the DD: a second DD (g_ddB) with its own tag/ref for functions that compare two records */
+    if (ptag != NULL)
+        *ptag = (ddid == g_ddB) ? g_tagB : g_tagA;
+    if (pref != NULL)
+        *pref = (ddid == g_ddB) ? g_refB : g_refA;
     return SUCCEED;
 }
 
@@ -522,6 +529,17 @@ static int HIsync(filerec_t *file_rec)
     /* the end-of-file byte goes at (not below) the end of the file */
     __CPROVER_ensures((g_wr_n == 1 && !g_io_failed) ==> g_wr_off == file_rec->f_end_off);
 
+/* C13/C01: two access records denote the same stored element (and may share special info) exactly when they are different
+   records of the same file with the same tag/ref */
+int HPcompare_accrec_tagref(const void *rec1, const void *rec2)
+    __CPROVER_requires(rec1 != NULL && rec2 != NULL && g_htp_failed == 0)
+    __CPROVER_assigns(g_htp_failed)
+    __CPROVER_ensures(g_htp_failed || __CPROVER_return_value ==
+                      ((rec1 != rec2 && ((const accrec_t *)rec1)->file_id == ((const accrec_t *)rec2)->file_id &&
+                        (((const accrec_t *)rec1)->ddid == g_ddB ? g_tagB : g_tagA) == (((const accrec_t *)rec2)->ddid == g_ddB ? g_tagB : g_tagA) &&
+                        (((const accrec_t *)rec1)->ddid == g_ddB ? g_refB : g_refA) == (((const accrec_t *)rec2)->ddid == g_ddB ? g_refB : g_refA))
+                           ? TRUE : FALSE));
+
 #ifdef H4V_NATIVE
 #include "h4v_native_wrap.h"
 #endif
@@ -856,4 +874,28 @@ h_HIsync(void)
     H4V_COVER(r == SUCCEED && g_htpsync_n == 0 && g_wr_n == 0, "HIsync nothing to do");
     H4V_COVER(r == FAIL, "HIsync reports failure");
     H4V_CANARY("HIsync end");
+}
+
+void
+h_HPcompare_accrec_tagref(void)
+{
+    mk_env(0);
+    g_htp_may_fail = 1;
+    accrec_t *other = malloc(sizeof(accrec_t));
+    H4V_ASSUME(other != NULL);
+    H4V_ND(int32, o_file_id);
+    H4V_ND(int32, o_ddid);
+    H4V_ND(int, same_rec);
+    other->file_id = o_file_id;
+    other->ddid    = o_ddid;
+    H4V_HAVOC(int32, g_ddB);
+    H4V_HAVOC(uint16, g_tagA);
+    H4V_HAVOC(uint16, g_refA);
+    H4V_HAVOC(uint16, g_tagB);
+    H4V_HAVOC(uint16, g_refB);
+    int r = HPcompare_accrec_tagref(g_arec, same_rec ? g_arec : other);
+    H4V_COVER(r == TRUE, "HPcompare_accrec_tagref same element");
+    H4V_COVER(r == FALSE && !same_rec && !g_htp_failed && other->file_id != g_arec->file_id && g_arec->ddid == g_ddB && other->ddid == g_ddB,
+              "HPcompare_accrec_tagref same tag/ref in another file");
+    H4V_CANARY("HPcompare_accrec_tagref end");
 }
